@@ -40,7 +40,11 @@ ASSUMPTIONS = [
 ERRORS = ['#NULL!', '#DIV/0!', '#VALUE!', '#REF!', '#NAME?', '#NUM!', '#N/A']
 FUNCS = ['SUM', 'IF', 'MAX', 'ROUND', 'CONCATENATE', 'PI', 'sum', 'MyFunc',
          'F', 'VLOOKUP', 'LEFT', 'X2', '_xlfn.CONCAT', '@SUM', 'AND',
-         '_xlfn.STDEV.S', 'NOW', 'TODAY', 'Do_It', '@IF', 'ISNA', 'NA']
+         '_xlfn.STDEV.S', 'NOW', 'TODAY', 'Do_It', '@IF', 'ISNA', 'NA',
+         # names the tokenizer and parser treat specially elsewhere (range
+         # pointers A1:OFFSET(...), A1:INDEX(...); booleans; errors)
+         'INDEX', 'OFFSET', 'MYINDEX', 'X.OFFSET', 'TRUE', 'FALSE', 'N',
+         'T', 'LOG10', 'A1B', 'R1C1', 'E']
 SHEETS = ['Sheet2', 'Data_1', 'My Sheet', "It's", 'Q-1', '2024', 'A B C',
           'Sheet1', u'Blätter', 'a.b']
 DELIMS = ['"', "'", '!', '#', '%', '(', ')', ',', ':', ';', '[', ']', '{',
